@@ -142,6 +142,8 @@ type Gen struct {
 	sideFailed  bool
 	modelVars   []string
 	specTypes   map[string]types.Type
+	refRange    map[string][2]string
+	axioms      map[string]string // opaque spec function symbol -> definitional axiom
 	splitCallee string
 	splitVal    string
 }
@@ -438,6 +440,7 @@ func (g *Gen) symFor(t types.Type, name string, st *State) Val {
 		o := g.newSym(name+"_off", "Int")
 		g.assume(st, fmt.Sprintf("(and (<= 0 %s) (<= %s %s) (<= 0 %s) (<= %s %s) (>= %s 0) (=> (= %s 0) (= %s 0)))", l, l, maxLen, o, o, maxLen, r, r, l))
 		st.refs = append(st.refs, r)
+		g.noteElemRange(st, r, u.Elem())
 		return Val{Ref: r, Len: l, Off: o, Kind: "slice", Ty: t}
 	case *types.Array:
 		// arrays are values: a symbolic array is a private (fresh) backing store with arbitrary contents
